@@ -152,9 +152,15 @@ def check_step(ctx, rs, model, gemini, weights, before, grads, Xb, Ab, pairs, in
                 if abs(left - right) > 1e-3 * max(abs(left), abs(right), 1e-9) + 1e-7:
                     ctx.count("kink_skipped")
                     continue
-                ctx.count("directions_checked")
                 scale = max(abs(an), abs(rich), 1e-7)
-                if abs(an - rich) > 5e-5 * scale + 10 * abs(d1 - d2) + 1e-9:
+                # rounding of the objective itself: values of magnitude |f| carry about eps*|f|, divided by the step in the quotient
+                # (weights that diverged under sgd make |f| ~ 1e20 while the slope is ~ 1e10: nothing can be read off the quotient then)
+                round_err = 32 * np.finfo(float).eps * abs(f0) / h2
+                if round_err > 2e-4 * scale:
+                    ctx.count("illconditioned_skipped")
+                    continue
+                ctx.count("directions_checked")
+                if abs(an - rich) > 5e-5 * scale + 10 * abs(d1 - d2) + round_err + 1e-9:
                     ctx.violation(f"parameter #{pi}: the direction handed to the optimiser has slope {an!r} along a random direction, "
                                   f"the regularised objective has {rich!r}", "update", {**inp, "param_index": pi},
                                   expected=rich, actual=an, key=f"direction:{inp['estimator']}:p{pi}",
@@ -234,9 +240,28 @@ def fit_cases(ctx, rs, nfits):
             kw = dict(n_clusters=K, max_iter=8, solver=str(rs.choice(["adam", "sgd"])), random_state=int(rs.randint(100)), learning_rate=0.05,
                       gemini=str(rs.choice(["kl_ova", "mmd_ova", "chi2_ova"])), batch_size=[None, 4][rs.randint(2)], n_hidden_dim=2,
                       alpha=float(rs.choice([10.0, 30.0])), M=float(rs.choice([1.0, 0.5])))
-        if fam == "Douglas":
+        ded0 = nfits - 12 - max(8, nfits // 5)
+        if ded0 - max(6, nfits // 10) <= it < ded0:
+            # dedicated: Douglas with several cut points per feature (their order changes under the updates, so the gradient has to be
+            # scattered back through the sort), and KernelRIM with a kernel-weighted penalty on several batches per pass (the penalty
+            # gradient follows W_ from one batch to the next)
+            n, d, K = 8, 2, int(rs.randint(2, 4))
+            X = fl.small_data(rs, n, d)
+            if (it - ded0) % 2 == 0:
+                fam, cls = "Douglas", E["Douglas"]
+                kw = dict(n_clusters=K, max_iter=3, solver=str(rs.choice(["adam", "sgd"])), random_state=int(rs.randint(100)), learning_rate=0.05,
+                          gemini=str(rs.choice(fl.GEMINI_NAMES)), batch_size=[None, 4][rs.randint(2)], n_cuts=3)
+            else:
+                fam, cls = "KernelRIM", E["KernelRIM"]
+                kw = dict(n_clusters=K, max_iter=2, solver=str(rs.choice(["adam", "sgd"])), random_state=int(rs.randint(100)), learning_rate=0.05,
+                          batch_size=int(rs.choice([1, 2, 3])), reg=float(rs.choice([0.1, 1.0])),
+                          base_kernel=str(rs.choice(["rbf", "laplacian", "linear"])))
+                if kw["base_kernel"] == "linear":
+                    kw["learning_rate"] = 1e-3
+        if fam == "Douglas" and "n_cuts" not in kw:
             kw["n_cuts"] = int(rs.randint(1, 4))
             kw["max_iter"] = 2
+        if fam == "Douglas":
             if d > 2:
                 X = X[:, :2]; d = 2
         decorated = fam in ("LinearModel", "MLPModel", "CategoricalModel") and rs.rand() < 0.7
@@ -381,5 +406,5 @@ def run(ctx):
         ctx.case((unit, np.asarray(vals).tobytes()), True, None)
         if not core.close_vec(list(map(float, vals)), m, rtol=1e-9):
             ctx.corr_break("model:" + unit, inp, {"impl": list(map(float, vals)), "model": m})
-    fit_cases(ctx, rs, 44 if ctx.tier == "quick" else 400)
+    fit_cases(ctx, rs, 50 if ctx.tier == "quick" else 400)
     return ctx.finish()
